@@ -406,12 +406,28 @@ pub fn run_check(check: &dyn Check, tier: &str, master_seed: u64) -> RunSummary 
     let mut first_viols: Vec<(Case, Viol)> = Vec::new();
     let mut classes_seen: BTreeSet<String> = BTreeSet::new();
     let mut nviol = 0u64;
+    // digest of everything the run observed, in case order: two runs of the same seed must agree
+    let mut digest: u64 = 0xcbf29ce484222325;
     let mut class_hist: BTreeMap<String, u64> = BTreeMap::new();
     let class_filter = std::env::var("VERIF_CLASS_FILTER").ok();
     let max_report: usize = std::env::var("VERIF_MAX_REPORT").ok().and_then(|s| s.parse().ok()).unwrap_or(4);
     for (case, r) in results {
         if let Some(e) = r.harness_error {
             harness_errors.push(format!("case seed {}: {e}", case.seed));
+        }
+        digest = crate::prng::fnv_bytes(digest, &case.seed.to_le_bytes());
+        for (k, v) in &r.stats.counters {
+            digest = crate::prng::fnv_bytes(digest, k.as_bytes());
+            digest = crate::prng::fnv_bytes(digest, &v.to_le_bytes());
+        }
+        for (k, v) in &r.stats.sets {
+            digest = crate::prng::fnv_bytes(digest, k.as_bytes());
+            for h in v {
+                digest = crate::prng::fnv_bytes(digest, &h.to_le_bytes());
+            }
+        }
+        for v in &r.viols {
+            digest = crate::prng::fnv_bytes(digest, v.class.as_bytes());
         }
         for v in &r.viols {
             nviol += 1;
@@ -453,6 +469,7 @@ pub fn run_check(check: &dyn Check, tier: &str, master_seed: u64) -> RunSummary 
     for (c, n) in &class_hist {
         println!("  class {c}: {n} cases");
     }
+    println!("run_digest={digest:016x}");
     println!(
         "{}: {} tier, seed {}, {} cases, {} violations, {} known findings reproduced, {:.1}s",
         prop,
